@@ -9,7 +9,6 @@ import json
 import logging
 import multiprocessing as mp
 import warnings
-from fractions import Fraction
 
 import numpy as np
 
